@@ -257,6 +257,7 @@ func c05(r *core.Run) {
 	}
 	c05Recover(r)
 	c05LowS(r)
+	recoverOnCurve(r, "C05.G5", "Recover")
 	keyAddressRules(r, "C05.P2", "NewEthereumAddress")
 }
 
